@@ -89,7 +89,37 @@ def nontrivial_c03(case):
     return "ignored" in vs and "kept" in vs
 
 
+def cmp_c12(case, got):
+    if got.get("panic") or got.get("error"):
+        return [("the CLI failed to build its filterer: %s" % (got.get("error") or "panic"), "error")]
+    bad = []
+    flags = " ".join("--" + f for f in sorted(case["flags"])) or "(no flags)"
+    e = case["expect"]
+    def chk(name, want, gotv, key):
+        if gotv is not want:
+            bad.append(("%s with option %s: %s %s, expected to %s"
+                        % (flags, case["opt"], name, "passes" if gotv is True else ("is rejected" if gotv is False else gotv),
+                           "pass" if want else "be rejected"), key))
+    for src, want in e["sources"].items():
+        chk("probe of ignore source %s" % src, want, got["sources"][src], "source:%s|%s" % (src, flags))
+    chk("unmatched file", e["plain"], got["plain"], "plain|" + case["opt"])
+    chk("probe of explicit option --%s" % case["opt"], e["explicit"], got["explicit"],
+        "explicit:%s|%s" % (case["opt"], flags))
+    chk("create event", e["create"], got["create"], "create|" + case["opt"])
+    chk("modify event", e["modify"], got["modify"], "modify|" + case["opt"])
+    return bad
+
+
 SPECS = {
+    "C12": dict(
+        module="CliIgnoreFlags.tla", runner="cliflags", cmp=cmp_c12, nontrivial=lambda c: True,
+        cfgs=dict(quick=["CliIgnoreFlags.cfg"], thorough=["CliIgnoreFlags.cfg"]),
+        rule="every (flag set, explicit option) pair is a distinct case: 64 x 7; each is judged on 9 probe events",
+        exhaustive=True,
+        assumptions=["the documented meaning of each flag (help text) is the reference: which ignore sources it removes",
+                     "one shared project (.git, .gitignore, .ignore) and fake HOME / XDG_CONFIG_HOME (git/ignore, watchexec/ignore) stand for the five sources",
+                     "argv goes through the CLI's own parser and normalisation (cfg(watchexec_verif) module of the CLI library)"],
+    ),
     "C03": dict(
         module="IgnoreScope.tla", runner="ignore", cmp=cmp_c03, nontrivial=nontrivial_c03, seeded=True,
         cfgs=dict(quick=["IgnoreScope_single.cfg", "IgnoreScope_sample.cfg"],
